@@ -132,7 +132,7 @@ theorem compress_spec {S : Nat → Bool} (s : Sketch) {b : Nat} (coins : List Bo
   obtain ⟨hb, lok, il⟩ := io
   have hbid : b ∈ h.ids := mem_ids_of_HasCells il.cells
   rw [compressWhileUpdating_eq]
-  apply SafeF.bind' (findLevel_spec s h lok.len (s.numLevels + 1) 0)
+  apply SafeF.bind' (findLevel_spec s h (by have := lok.len; omega) (s.numLevels + 1) 0)
   intro level h1 ⟨e1, hlv, hcap⟩ _
   subst e1
   have hpop : 2 ≤ s.levels.getD (level + 1) 0 - s.levels.getD level 0 := by
